@@ -6,7 +6,9 @@ R06.1 ROUND-MODE  call sites of the builtin half-to-even round() are confined to
 """
 from __future__ import annotations
 
-from ..engine.srcmodel import stmt_text
+import ast
+
+from ..engine.srcmodel import AnalysisError, Model, dotted, stmt_text, walk_local
 from ..engine.report import RuleResult
 from .common import finding
 from .rounding import builtin_round_sites, bound_symbols, half_up_helper, helper_problem
@@ -109,12 +111,81 @@ def r06_2(ctx, counts: dict[str, int]) -> RuleResult:
     return res
 
 
+def r06_3(ctx, counts: dict[str, int]) -> RuleResult:
+    """sign of a zero must not be read with an ordering comparison"""
+    import re
+    from ..engine.cfg import CFG
+    from ..engine.dataflow import branch_facts
+    model: Model = ctx.model
+    res = RuleResult(
+        'R06.3', 'ZERO-SIGN-BY-COMPARISON',
+        'Contradiction rule (Engler): at a program point where the branch facts establish '
+        '`x == 0` (the false edge of `x != 0`, the true edge of `x == 0` or `not x`), an ordering '
+        'comparison of x with 0 (`x < 0`, `x > 0`, …) is constant — -0.0 < 0 is False — so one '
+        'of its outcomes is dead code; IEEE 754 division by negative zero needs the sign bit '
+        '(str()/math.copysign). Scope: the operator and function modules and helpers.')
+    mods = [m for m in model.modules.values()
+            if m.name.startswith(('elementpath.xpath1', 'elementpath.xpath2', 'elementpath.xpath30',
+                                  'elementpath.xpath31')) or m.name == 'elementpath.helpers']
+    zero_regions = 0
+    for mod in sorted(mods, key=lambda m: m.name):
+        for f in sorted(mod.functions.values(), key=lambda q: q.key):
+            cmps = [n for n in walk_local(f.node) if isinstance(n, ast.Compare)
+                    and len(n.ops) == 1 and isinstance(n.ops[0], (ast.Lt, ast.Gt, ast.LtE, ast.GtE))
+                    and isinstance(n.left, ast.Name)
+                    and isinstance(n.comparators[0], ast.Constant)
+                    and n.comparators[0].value == 0
+                    and not isinstance(n.comparators[0].value, bool)]
+            if not cmps:
+                continue
+            cfg = CFG(f.node)
+            facts = branch_facts(cfg)
+            for c in cmps:
+                holder = None
+                for nd in cfg.nodes:
+                    if nd.ast is None or nd.kind not in ('stmt', 'test'):
+                        continue
+                    root = nd.ast.test if isinstance(nd.ast, (ast.If, ast.While)) else nd.ast
+                    if any(x is c for x in ast.walk(root)):
+                        holder = nd
+                        break
+                if holder is None:
+                    continue
+                nm = c.left.id                                       # type: ignore[attr-defined]
+                fs = facts[holder.id]
+                is_zero = f'+{nm} == 0' in fs or f'-{nm}' in fs or f'-{nm} != 0' in fs
+                if not is_zero:
+                    continue
+                zero_regions += 1
+                res.fail(finding('R06.3', f, c, f'{stmt_text(c)} where {nm} == 0',
+                                 f'`{stmt_text(c)}` is evaluated where `{nm} == 0` is already '
+                                 f'established: the comparison is always False, so the sign of '
+                                 f'a negative zero is lost and one branch is dead'))
+            res.instances.append(f'{f.key}: {len(cmps)} ordering comparisons with 0 examined')
+            res.ok()
+    # positive anchor: the div operator must read the sign of a zero divisor somewhere
+    div = [f for m in mods for f in m.functions.values() if f.name == 'evaluate__div_operator']
+    if not div:
+        raise AnalysisError('evaluate__div_operator vanished')
+    reads_sign = any(
+        isinstance(n, ast.Call) and (
+            dotted(n.func) in ('math.copysign',) or
+            (isinstance(n.func, ast.Attribute) and n.func.attr == 'startswith'
+             and isinstance(n.func.value, ast.Call) and dotted(n.func.value.func) == 'str'))
+        for n in walk_local(div[0].node))
+    res.instances.append(f'{div[0].key}: reads the sign bit of the zero divisor = {reads_sign}')
+    # informational only: another sign-reading idiom would be equally valid
+    counts['zero_sign_sites'] = zero_regions
+    return res
+
+
 def run(ctx) -> dict:
     counts: dict[str, int] = {}
     return {
-        'results': [r06_1(ctx, counts), r06_2(ctx, counts)], 'counts': counts,
+        'results': [r06_1(ctx, counts), r06_2(ctx, counts), r06_3(ctx, counts)], 'counts': counts,
         'explanation':
-            'Only the rounding-mode clause of C06 is decided: a who-may-call rule confines '
+            'Decided: the rounding-mode clause of C06 and one IEEE clause (the sign of a zero '
+            'divisor is never read through a comparison). Rounding: a who-may-call rule confines '
             'Python\'s half-to-even round() to fn:round-half-to-even and __round__ methods, so '
             'that fn:round and the position rounding of substring/subsequence cannot silently '
             'use banker\'s rounding.',
